@@ -183,6 +183,11 @@ end Mieru.C14
 namespace Mieru.C14
 open Mieru.Gen Mieru.Gen.Arith Mieru.Padding
 
+/-- the documented limits are the compiled constants: 16-bit length fields, 32768-byte fragments,
+    1024-byte session payloads, MTU range 1280..1500 is what the theorems above assume -/
+theorem documented_limits : maxPDU = 32768 ∧ maxSessionOpenPayload = 1024 ∧ metadataLength = 32 ∧
+    lowEntropyChunkLen = 8 := by decide
+
 theorem overhead_is_sum : packetOverhead = nonceSize + metadataLength + 2 * aeadOverhead ∧
     packetNonHeaderPosition = nonceSize + metadataLength + aeadOverhead ∧
     streamOverhead = metadataLength + 2 * aeadOverhead := by decide
